@@ -251,7 +251,7 @@ func nativeReplayOpt(dir, harness string, paths []string, race bool) (map[string
 		if strings.Contains(string(b), "func verifNow()") {
 			usesNow = true
 		}
-		if strings.Contains(string(b), "func verifLock(") {
+		if strings.Contains(string(b), "func verifLock") {
 			usesLock = true
 		}
 	}
